@@ -182,6 +182,13 @@ def check_replace(prog, rep, entry, opt):
         rep.ob("C19.3", "%s|%s" % (entry, opt), ok,
                "%s: no write of option %s found (mechanism missing)" % (entry, opt))
         return
+    # the setter replaces on every path: a path that returns without clearing / replacing the option leaves
+    # raw state the getter's (lossy) view cannot vouch for
+    uncond = bool(res) and all(s.ghost.get(("cleared", opt)) for s, _ in res)
+    rep.ob("C19.3", "%s|%s|unconditional" % (entry, opt), uncond,
+           "%s has a path that returns without clearing or replacing option %s (a 'nothing to do' shortcut decided from the "
+           "getter's view keeps stale raw values the getter does not show)" % (entry, opt),
+           {"file": body["span"]["f"], "line": body["span"]["l"], "fn": entry})
     bad = [a for a in mine if not a[1]]
     rep.ob("C19.3", "%s|%s" % (entry, opt), not bad,
            "%s adds a value of the single-valued option %s without clearing or replacing the existing values first "
@@ -251,6 +258,7 @@ def check(env, rep, tier):
         for entry, opt in SETTERS:
             check_replace(prog, rep, entry, opt)
         check_path_and_observe(prog, rep)
+        check_content_format(prog, rep)
         # ---- C19.6 sibling agreement of the two coap-message impls
         groups = {}
         for b in prog.bodies.values():
@@ -433,3 +441,49 @@ def check_path_and_observe(prog, rep):
     rep.ob("C19.4", "get_observe_flag", "packet::Packet::get_observe_value" in calls or any(str(c).endswith("get_observe_value") for c in calls) and dec is not None and dec["id"] in calls,
            "get_observe_flag does not decode get_observe_value() through the ObserveOption table",
            {"file": go["span"]["f"], "line": go["span"]["l"], "fn": go["path"]})
+
+
+def check_content_format(prog, rep):
+    """C19.8: set_content_format stores the registry number of the format through the typed unsigned encoder
+    (so the stored bytes are C06's shortest big-endian form) and get_content_format reads it back with the same type"""
+    import provenance
+    sb = find_body(prog, "packet::Packet::set_content_format")
+    gb = find_body(prog, "packet::Packet::get_content_format")
+    if sb is None or gb is None:
+        rep.missing("C19.8", "set_content_format / get_content_format")
+        return
+    ALLOWED = ("core::result::Result::<T, E>::unwrap", "core::result::Result::<T, E>::expect",
+               "<T as core::convert::Into<U>>::into", "<T as core::convert::TryInto<U>>::try_into")
+    TOUSIZE = "packet::<impl core::convert::From<packet::ContentFormat> for usize>::from"
+    typed, raw, wrap = [], [], None
+    for bb in sb["blocks"]:
+        t = bb["term"]
+        if t["k"] != "call" or bb["cleanup"]:
+            continue
+        p = provenance.callee_path(t)
+        if p in ("packet::Packet::add_option_as", "packet::Packet::set_options_as"):
+            typed.append(t)
+        elif p in ("packet::Packet::add_option", "packet::Packet::set_option"):
+            raw.append(t)
+    ok = len(typed) == 1 and not raw
+    why = "typed writes %d, raw writes %d" % (len(typed), len(raw))
+    if ok:
+        steps, term = provenance.trace(sb, typed[0]["args"][2])
+        wraps = [x[1] for x in steps if x[0] == "wrap"]
+        calls = [x[1] for x in steps if x[0] == "call"]
+        conv = [c for c in calls if "core::convert::TryFrom<usize> for u" in c or "core::convert::From<usize> for u" in c]
+        other = [c for c in calls if c not in ALLOWED and c != TOUSIZE and c not in conv]
+        wrap = wraps[0] if wraps else None
+        ok = (len(wraps) == 1 and wrap.split("::")[-1] in ("OptionValueU16", "OptionValueU32", "OptionValueU64") and TOUSIZE in calls
+              and not other and term == ("arg", 2, "") and not any(x[0] in ("cast", "proj") for x in steps))
+        why = "value = %s(%s of %s)" % (wrap, calls, term)
+    site = {"file": sb["span"]["f"], "line": sb["span"]["l"], "fn": sb["path"]}
+    rep.ob("C19.8", "set_content_format|typed", ok,
+           "set_content_format does not store usize::from(format), unchanged, through the typed unsigned option encoder (%s)" % why, site,
+           sample={"rule": "C19.8", "wrapper": wrap})
+    gt = [bb["term"] for bb in gb["blocks"] if bb["term"]["k"] == "call" and not bb["cleanup"]
+          and provenance.callee_path(bb["term"]) in ("packet::Packet::get_first_option_as", "packet::Packet::get_options_as")]
+    gty = [prog.types[g]["s"] for t in gt for g in t["callee"].get("gargs", [])]
+    rep.ob("C19.8", "get_content_format|same-type", bool(gt) and wrap is not None and all(x == wrap.rsplit("::", 1)[0] for x in gty),
+           "get_content_format does not read the option with the type set_content_format writes it with (reads %s, writes %s)" % (gty, wrap),
+           {"file": gb["span"]["f"], "line": gb["span"]["l"], "fn": gb["path"]})
